@@ -569,8 +569,15 @@ def fixture_selfcheck():
         name = strip_targs(f["q"]).split("::")[-1]
         for inst, ok, where, why in lookup_sites(fp, f):
             got.setdefault(name, []).append(ok)
-    want = {"good_lower": True, "bad_lower": False, "good_find": True, "bad_find": False}
+        # R12.2's subscript-exactness obligation has no instance in /repo today either (the library uses at()): same self-check
+        fl = None
+        for x in walk(f["body"]):
+            if x.get("k") == "call" and x.get("op") == "[]" and x.get("obj") is not None and x.get("args") and x.get("fn") is not None and \
+                    container_kind((fp.decl(f, x["fn"]) or {}).get("cls")) == "seq":
+                fl = fl or FnFlow(f)
+                got.setdefault(name, []).append(index_in_range(fp, f, fl, x, x["obj"], x["args"][0]))
+    want = {"good_lower": True, "bad_lower": False, "good_find": True, "bad_find": False, "good_index": True, "bad_index": False, "bad_index_signed": False}
     for name, w in want.items():
         if name not in got or all(got[name]) != w:
-            raise AnalysisBroken("C12 R12.4: matcher self-check failed on fixture function %s (verdicts %s, expected %s)" % (name, got.get(name), w))
+            raise AnalysisBroken("C12 R12.4 / R12.2: matcher self-check failed on fixture function %s (verdicts %s, expected %s)" % (name, got.get(name), w))
     _fixture_done[h] = True
